@@ -231,7 +231,8 @@ class Ctx:
         self.consts = {}     # full path -> (rust type, lean def name)
         self.fns = {}        # lean name -> Fn
         self.generic_dict = {}   # lean fn name -> [(key, leantype-builder)] dictionary params
-        self.skip_files = ('lymui/src/hex.rs',)
+        self.skip_files = ()
+        self.closure_by_span = {}   # '{closure@file:l:c: l:c}' -> [lean names]
 
     def enum_lean(self, path):
         """path like xyz::Kind / grayscale::Kind / AnsiKind / error::Error"""
@@ -295,6 +296,11 @@ class Ctx:
             if args[0].strip().endswith('Infallible'): return self.lean_ty(args[1], tparams)
             return f'(Except {self.lean_ty(args[1], tparams)} {self.lean_ty(args[0], tparams)})'
         if name == 'RangeInclusive': return f'(RangeInclusive {self.lean_ty(args[0], tparams)})'
+        if name == 'Argument': return 'FmtArg'
+        if name == 'Arguments': return 'Str'
+        if name == 'Chars': return 'Str'
+        if name == 'ParseIntError': return 'ParseIntError'
+        if name == 'Range': return '(Nat × Nat)'
         if name == 'JsObject': return '(JsObject α)'
         if name == 'Env': return 'NapiEnv'
         if name == 'Status': return 'NapiStatus'
@@ -333,8 +339,8 @@ class Ctx:
 # ----------------------------------------------------------------------------- tree IR
 
 class Let:
-    def __init__(self, name, ty, expr, user=False, mon=False):
-        self.name, self.ty, self.expr, self.user, self.mon = name, ty, expr, user, mon
+    def __init__(self, name, ty, expr, user=False, mon=False, keep=False):
+        self.name, self.ty, self.expr, self.user, self.mon, self.keep = name, ty, expr, user, mon, keep
 class If:
     def __init__(self, cond, th, el): self.cond, self.th, self.el = cond, th, el
 class Match:
@@ -385,6 +391,8 @@ def simplify(body):
         if isinstance(nd, Let):
             rest = body[i + 1:]
             uses = count_uses(rest, nd.name)
+            if nd.keep:
+                i += 1; continue
             if not nd.mon and uses == 0:
                 del body[i]; continue
             if not nd.mon and (is_atom(nd.expr) or (uses == 1 and not nd.user)):
@@ -621,6 +629,14 @@ class Tr:
             raise Unsupported('promoted ' + c)
         sm = re.match(r'^"(.*)"$', c, re.S)
         if sm: return f'({str_lit(sm.group(1))} : Str)', '&str'
+        chm = re.match(r"^'(.*)'$", c, re.S)
+        if chm:
+            body = bytes(chm.group(1), 'utf-8').decode('unicode_escape') if '\\' in chm.group(1) else chm.group(1)
+            if len(body) == 1: return f'({ord(body)} : Nat)', 'char'
+        bm = re.match(r'^b"(.*)"$', c, re.S)
+        if bm:
+            raw = bytes(bm.group(1), 'latin-1').decode('unicode_escape').encode('latin-1')
+            return '([' + ', '.join(str(b) for b in raw) + '] : List Nat)', '&[u8]'
         # enum unit variants
         em = re.match(r'^([\w:]+)::(\w+)$', c)
         if em:
@@ -719,10 +735,12 @@ class Tr:
         if rv.startswith('(') and not re.match(r'^\((\*|_\d+[.) ]|\()', rv):
             els = [self.operand(e, env)[0] for e in split_top(rv[1:-1])]
             return '(' + ', '.join(els) + ')' if els else '()'
-        m = re.match(r'^([\w:]+) \{(.*)\}$', rv)
+        m = re.match(r'^([\w:]+?)(?:::<[^{}]*>)? \{(.*)\}$', rv)
         if m:
             name = m.group(1).split('::')[-1]
-            if name == 'Range': raise Unsupported('Range')
+            if name == 'Range':
+                fs = dict((fe.partition(':')[0].strip(), fe.partition(':')[2]) for fe in split_top(m.group(2)))
+                return f'({self.operand(fs["start"], env)[0]}, {self.operand(fs["end"], env)[0]})'
             fields = []
             for fe in split_top(m.group(2)):
                 fn_, _, fv = fe.partition(':')
@@ -775,6 +793,43 @@ class Tr:
         if re.match(r'^std::boxed::box_assume_init_into_vec_unsafe::<.*>$', callee):
             if self.boxarr is None: raise Unsupported('vec! idiom without array store')
             return self.boxarr, 'pure'
+        # ---- string / iterator / fmt shims (hex.rs)
+        if re.match(r'^core::str::<impl str>::strip_prefix::<char>$', callee): a = av(); return f'(Str.stripPrefixChar {a[0]} {a[1]})', 'pure'
+        if re.match(r'^core::str::<impl str>::chars$', callee): return av()[0], 'pure'
+        if re.match(r'^core::str::<impl str>::get::<std::ops::Range<usize>>$', callee): a = av(); return f'(Str.getRangeR {a[0]} {a[1]})', 'pure'
+        if callee in ('String::new', 'std::string::String::new'): return '([] : Str)', 'pure'
+        if callee in ('String::len', 'std::string::String::len', 'core::str::<impl str>::len'): return f'(Str.byteLen {av()[0]})', 'pure'
+        if callee in ('String::push', 'std::string::String::push'):
+            return ('Str.push', self.operand(args[1], env)[0]), 'mutself'
+        if re.match(r'^char::methods::<impl char>::is_ascii_hexdigit$', callee): return f'(Char.isAsciiHexDigit {av()[0]})', 'pure'
+        if re.match(r'^core::num::<impl u8>::from_str_radix$', callee): a = av(); return f'(U8.fromStrRadix {a[0]} {a[1]})', 'pure'
+        if re.match(r'^<ParseIntError as ToString>::to_string$', callee): return '([] : Str)', 'pure'
+        m = re.match(r'^core::fmt::rt::Argument::<\'_>::new_(display|lower_hex)::<(.*)>$', callee)
+        if m:
+            if m.group(1) == 'display' and m.group(2).strip().lstrip('&') in ('str', 'String', 'std::string::String'): return f'(FmtArg.display {av()[0]})', 'pure'
+            if m.group(1) == 'lower_hex' and m.group(2).strip() in PRIM_NAT: return f'(FmtArg.lowerHex {av()[0]})', 'pure'
+            raise Unsupported('fmt argument ' + callee)
+        if re.match(r"^Arguments::<'_>::new::<\d+, \d+>$", callee): a = av(); return f'(Fmt.format {a[0]} {a[1]})', 'pure'
+        if callee in ('format', 'alloc::fmt::format', 'std::fmt::format') or re.match(r'^must_use::<.*>$', callee): return av()[0], 'pure'
+        if re.match(r'^(alloc::)?slice::<impl \[.*\]>::join::<&str>$', callee): a = av(); return f'(Str.join {a[0]} {a[1]})', 'pure'
+        m = re.match(r'^<.* as Iterator>::(map|all|fold|collect)::<.*>$', callee)
+        if m:
+            k = m.group(1)
+            it = self.operand(args[0], env)[0]
+            if k == 'collect': return it, 'pure'
+            if k == 'map': return f'(List.map (fun x => {self.closure_of(args[1])} () x) {it})', 'pure'
+            if k == 'all': return f'(List.all {it} (fun x => {self.closure_of(args[1])} () x))', 'pure'
+            if k == 'fold':
+                init = self.operand(args[1], env)[0]
+                return f'(List.foldl (fun acc x => {self.closure_of(args[2])} () acc x) {init} {it})', 'pure'
+        m = re.match(r'^<(\{closure@.*\}) as Fn(?:Mut|Once)?<\((.*)\)>>::call(?:_mut|_once)?$', callee)
+        if m:
+            name = self.closure_by_type(m.group(1))
+            argt = self.operand(args[1], env)[0]
+            return f'({name} () {argt})', 'pure'
+        if re.match(r'^(std::result::)?Result::<.*>::map_err::<.*>$', callee):
+            r0 = self.operand(args[0], env)[0]
+            return f'(Except.mapError (fun e => {self.closure_of(args[1])} () e) {r0})', 'pure'
         # ---- N-API / Try / iterator shims (js feature)
         m = re.match(r'^napi::bindgen_runtime::js_values::object::<impl JsObject>::(get|set)::<&str, (.*)>$', callee)
         if m:
@@ -816,6 +871,19 @@ class Tr:
             targs = split_top(m.group(3)) if m.group(3) else []
             return self.crate_call(name, av(), args, env, targs)
         raise Unsupported('call ' + callee)
+
+    def closure_by_type(self, ct):
+        ct = ct.strip()
+        names = self.ctx.closure_by_span.get(ct, [])
+        if len(names) == 1:
+            self.calls.add(names[0]); return names[0]
+        if len(names) > 1: return self.closure_name()   # same span several times (macro expansion): by order of use
+        raise Unsupported('closure ' + ct)
+
+    def closure_of(self, arg):
+        m = re.match(r'^const ZeroSized: (\{closure@.*\})$', arg.strip())
+        if not m: raise Unsupported('closure operand ' + arg)
+        return self.closure_by_type(m.group(1))
 
     def closure_name(self):
         owner = self.f.lean_name
@@ -1069,7 +1137,7 @@ class Tr:
                     ce = f'({cname} {" ".join(extra + argv)})'
                     if callee_f.ret != '()' and not callee_f.ret.startswith('&mut'):
                         tmp = self.fresh(i)
-                        out.append(Let(f'({tmp}, {name})', None, ce, user=True, mon=callee_f.monadic))
+                        out.append(Let(f'({tmp}, {name})', None, ce, user=True, mon=callee_f.monadic, keep=True))
                         env[i] = tmp
                     else:
                         out.append(Let(name, None, ce, user=True, mon=callee_f.monadic))
@@ -1190,6 +1258,8 @@ class Tr:
         for i, t in self.f.params:
             nm = self.fresh(i); env[i] = nm
         self.param_names = [env[i] for i, _ in self.f.params]
+        for i, t in self.f.locals.items():
+            if i not in env and self.strip_ref(t).startswith('{closure@'): env[i] = '()'
         body = self.walk(0, env, 0, frozenset(), None)
         simplify(body)
         return body
@@ -1242,14 +1312,19 @@ def main():
             base = re.sub(r'::\{closure#\d+\}$', '', f.path)
             if base.split('::')[-1] in JSFN: keep.append(f)
         fns = keep
+    fns = [f for f in fns if 'into_short_hex' not in f.path]
     for f in fns:
-        if f.is_closure and JS:
+        if f.is_closure and (JS or 'lymui/src/hex.rs' in f.path):
             km = re.search(r'::\{closure#(\d+)\}$', f.path)
-            of = Fn(); of.path = re.sub(r'::\{closure#\d+\}$', '', f.path); of.fnname = of.path.split('::')[-1]
+            of = Fn(); of.path = re.sub(r'(::\{closure#\d+\})+$', '', f.path); of.fnname = of.path.split('::')[-1]
             im = re.search(r'<impl at ([^>]+)>', of.path); of.impl_loc = im.group(1) if im else None
             oname, opath = lean_fn_name(ctx, of)
             if oname is None: report['unsupported'].append((f.path, 'closure owner')); continue
-            f.lean_name = f'{oname}.closure{km.group(1)}'; f.tparams = (); f.mutself = False; f.monadic = False; f.needs_fuel = False; f.dicts = []
+            nest = re.findall(r'::\{closure#(\d+)\}', f.path)
+            f.lean_name = oname + ''.join(f'.closure{k}' for k in nest); f.tparams = ()
+            ct = re.sub(r"^&('\w+ )?(mut )?", '', f.params[0][1].strip()) if f.params else ''
+            if f.params: f.params[0] = (f.params[0][0], ct); f.locals[f.params[0][0]] = ct
+            ctx.closure_by_span.setdefault(ct, []).append(f.lean_name); f.mutself = False; f.monadic = False; f.needs_fuel = False; f.dicts = []
             f.alpha = 'implicit' if 'f64' in ' '.join(t for _, t in f.params) + f.ret or 'JsObject' in ' '.join(t for _, t in f.params) + f.ret else 'none'
             f.trait = None; f.selft = None; f.file = opath
             ctx.fns[f.lean_name] = f; named.append(f); continue
@@ -1280,7 +1355,7 @@ def main():
         f.alpha = 'implicit' if 'α' in sig else 'explicit'
         ctx.fns[name] = f; named.append(f)
     # hand-written externals (hex.rs)
-    for hn, sig in HAND.items():
+    for hn, sig in {}.items():
         h = Fn(); h.lean_name = hn; h.tparams = (); h.mutself = False; h.monadic = sig['monadic']; h.needs_fuel = False; h.dicts = []; h.ret = sig['ret']; h.alpha = 'none'
         ctx.fns[hn] = h
 
@@ -1424,7 +1499,7 @@ def main():
         types.append('')
     types.append('end Gen')
     write_if_changed(os.path.join(out_path, 'Types.lean'), '\n'.join(types) + '\n')
-    out = ['-- GENERATED by tools/mir2lean.py from rustc MIR; do not edit.', 'import LymuiVerif.Core.Hex', 'set_option linter.unusedVariables false', 'namespace Gen', 'open Flt', '']
+    out = ['-- GENERATED by tools/mir2lean.py from rustc MIR; do not edit.', 'import LymuiVerif.Core.StrShims', 'set_option linter.unusedVariables false', 'namespace Gen', 'open Flt', '']
     for nm, d in const_defs: out.append(d)
     out.append('')
     names = list(emitted)
